@@ -330,7 +330,9 @@ func TestC20Rapid(t *testing.T) {
 		}
 		rec.Add("steps", int64(len(history)))
 		rec.Add("reconfigurations", int64(reconfigs))
-		rec.Case(reconfigs >= 3 && (autoSwitches > 0 || dirChanges > 0) || windows > 0, canonJSON(history), func() any { return map[string]any{"history": history, "finalDirs": relAll(root, m.dirs), "finalAuto": m.auto} }, labels...)
+		rec.Case(reconfigs >= 3 && (autoSwitches > 0 || dirChanges > 0) || windows > 0, canonJSON(history), func() any {
+			return map[string]any{"history": history, "finalDirs": relAll(root, m.dirs), "finalAuto": m.auto}
+		}, labels...)
 	})
 	if fds, watches := settleInotify(0, 0); fds != 0 || watches != 0 {
 		t.Fatalf("C20 violated: after all caches were switched to manual mode the process still holds %d inotify descriptors (%d watches)", fds, watches)
